@@ -152,6 +152,12 @@ func Generate(genseed uint64, stream string, thorough bool) *Case {
 	c.FindSucc = r.Chance(1, 3)
 
 	switch stream {
+	case "extended":
+		// ExtendedCopyGraph / ExtendedCopy from a graph source (memory, OCI layout), callbacks nil or set
+		c.Mode = common.Pick(r, []string{"x", "X"})
+		c.Src = common.Pick(r, []string{"mem", "oci", "ocire"})
+		c.Dst = common.Pick(r, []string{"mem", "oci", "file"})
+		c.RefFetch, c.MapRoot, c.Platform, c.Mount = false, -1, "", false
 	case "rootpresent":
 		// Copy whose root is already in the destination: {Tagger, ReferencePusher} x {OnCopySkipped nil, set}
 		c.Mode = common.Pick(r, []string{"t", "r"})
